@@ -15,7 +15,7 @@ EXTENDS Integers, Sequences, FiniteSets, TLC
 Range(s) == {s[i] : i \in DOMAIN s}
 
 \* relations compared row for row (others are reported in the evidence only)
-Compared == {"app", "app.long", "mixin", "ep", "event", "ep.rest", "stmt", "type", "table", "field", "field.constraint", "enum", "alias",
+Compared == {"app", "app.long", "mixin", "ep", "event", "ep.rest", "stmt", "type", "table", "field", "field.constraint", "enum", "alias", "param",
              "app.tag", "type.tag", "field.tag", "ep.tag", "app.anno", "type.anno", "field.anno", "ep.anno"}
 
 \* the payload of a return statement is parsed by relmod into status and type; the census states
